@@ -164,6 +164,8 @@ class World:
                 d.unsubscribe_agent(c)
             elif k == "aunreg":
                 d.unregister_agent(a)
+            elif k == "areg":
+                d.register_agent(a, ag.address)
             else:
                 raise MachineryError("unknown operation %r" % o)
         except MachineryError:
@@ -362,7 +364,7 @@ def run(tier):
         casesA, sampled = casesA[:4000], True
     cases = cases + cases1 + casesA + cases3
     consts = dict(consts, WithAgentOps=True)
-    sim = tlc.run("Gen_C20", GEN_CFG, consts=dict(consts, MaxLen=10, Exhaustive=False, WithDeliveries=True), workers=1, simulate=400 if quick else 6000, depth=11,
+    sim = tlc.run("Gen_C20", GEN_CFG, consts=dict(consts, MaxLen=10, Exhaustive=False, WithDeliveries=True), workers=1, simulate=2500 if quick else 20000, depth=11,
                   seed=seed() + 20, timeout=240 if quick else 1200)
     v.add_tlc(sim, "random histories of 10 operations (TLC -simulate)")
     longer = [c[0] for c in sim.tagged("CASE")]
@@ -398,7 +400,7 @@ def run(tier):
             seen.add(clause)
             kinds = [o["k"] for o in h["ops"]]
             key = {"clause": clause, "after_unreg": "unreg" in kinds, "after_runsub": "runsub" in kinds, "after_unsub": "unsub" in kinds,
-                   "with_replica": "rep" in kinds, "agent_left": "aunreg" in kinds}
+                   "with_replica": "rep" in kinds, "agent_left": "aunreg" in kinds, "agent_back": "areg" in kinds}
             if clause == "computation_view_differs_from_directory":
                 view, dirv, host = b[3], b[4], b[5]
                 key["diagnosis"] = ("stale_entry_for_unhosted_computation" if dirv == "" and host == "" and view != "" else
@@ -423,7 +425,7 @@ def run(tier):
                      "single-message deliveries on the 4 agent<->directory channels, then TLC-simulated histories of 10; each executed on real "
                      "agents with a seeded drain order; non-trivial = the history contains a subscription" % (3 if quick else 4))
     v.cov["trusted_base"] = ["TLC", "vlib/agentrt.py", "the channel interception of vlib/props/C20.py (inter-agent sends held in per-pair FIFO lists)"]
-    v.assumptions = ["agents register at boot; an agent that leaves (unregister_agent) does nothing afterwards"]
+    v.assumptions = ["agents register at boot; an agent that leaves (unregister_agent) does nothing afterwards, except registering again"]
     return v.finish()
 
 
